@@ -13,10 +13,12 @@ THEOREMS = core.theorems_in(['C09.lean', 'C09b.lean'], 'Flowdyn.C09') + ['Flowdy
     ['Flowdyn.C12.%s_%s' % (l, t) for l in ('minmod', 'vanalbada', 'vanleer', 'superbee') for t in ('sign', 'le_two_min', 'zero_of_nonpos')]
 AUDIT_IMPORTS = ['Flowdyn.Props.C05', 'Flowdyn.Props.C12', 'Flowdyn.Props.C09b', 'Flowdyn.Props.C07b']
 THEOREMS = THEOREMS + ['Flowdyn.C07.loop_preserves', 'Flowdyn.C07.run_preserves', 'Flowdyn.C07.run_preserves_data']
-PARTIAL = {"MUSCL": "linear convection with MUSCL and any Sweby-region limiter (all four limiters of the code, C09b.sweby_*) on a uniform periodic mesh at CFL<=1/2 is proved TVD and range preserving for a > 0 (muscl_step_tvd); a < 0 follows by the reflection equivariance (C13.rhs_mirror) but is not assembled as a theorem",
-           "Burgers": "first-order and MUSCL Burgers (Roe flux without entropy fix, sign-changing data) are explored by the sweep only",
-           "SSP lift": "convexity of TV and range + the Shu-Osher forms (C05) are proved; their composition for the stage loop with the time step frozen per iteration is by the sweep"}
-LEVEL_NOTE = "Harten's lemma on the cyclic index set; first-order upwind convection on any mesh at CFL<=1; MUSCL: see PARTIAL"
+AUDIT_IMPORTS = AUDIT_IMPORTS + ['Flowdyn.Props.C09c']
+THEOREMS = THEOREMS + core.theorems_in(['C09c.lean'], 'Flowdyn.C09')
+PARTIAL = {"MUSCL Burgers": "MUSCL reconstruction with the Burgers flux (second order, sign-changing data) is explored by the sweep only; first-order Burgers (any periodic mesh, CFL<=1, sonic points and the tie uL+uR=0 included) is proved (C09c.burgers_step_tvd, burgers_ssp_tvd, burgers_run_tvd)",
+           "non-uniform MUSCL": "MUSCL theorems are for uniform periodic meshes (the property's clause); first-order upwind and first-order Burgers are proved on any periodic mesh",
+           "local time step": "SSP/TVD theory is for one global time step: whole-solve theorems assume dtlocal = false"}
+LEVEL_NOTE = "Harten's lemma on the cyclic index set; upwind (any speed sign, any periodic mesh, CFL<=1), MUSCL with every limiter of the code (Sweby region, any speed sign, uniform mesh, CFL<=1/2) and first-order Burgers: one Euler step, then explicit/rk2_heun/rk3ssp steps through the Shu-Osher forms of the regenerated tables (C09c.ssp_preserves), then whole solves with any save times/stop criteria/monitors including every returned snapshot (C09c.run_allQ, *_run_tvd)"
 LIMS = ['minmod', 'vanalbada', 'vanleer', 'superbee']
 SSP = ['explicit', 'rk2_heun', 'rk3ssp']
 
